@@ -45,6 +45,10 @@ type denseRecv struct {
 	r, c  int       // intended result shape
 	off   int       // offset of the window in back ("view")
 	ld    int       // stride of the window in back
+	// detachOK: the operation is documented to give the receiver new storage (CloneFrom). For every other
+	// operation a non-empty receiver must be written THROUGH: the result has to be in the caller's backing
+	// array (the parent of a view, the slice handed to NewDense), not only readable through the receiver.
+	detachOK bool
 }
 
 // newDenseRecv returns a receiver in the given state for an r×c result.
@@ -93,9 +97,17 @@ func (d *denseRecv) check(want matrix, tol func(i, j int) float64) string {
 		return fmt.Sprintf("result is %d×%d, want %d×%d", r, c, d.r, d.c)
 	}
 	raw := d.m.RawMatrix()
+	if (d.state == "sized" || d.state == "view") && !d.detachOK {
+		if len(raw.Data) == 0 || &raw.Data[0] != &d.back[d.off] || (raw.Stride != d.ld && r > 1) {
+			return "the non-empty receiver was detached from its backing storage: the result is not written through to the caller's array"
+		}
+	}
 	for i := 0; i < r; i++ {
 		for j := 0; j < c; j++ {
 			got := raw.Data[i*raw.Stride+j]
+			if (d.state == "sized" || d.state == "view") && !d.detachOK {
+				got = d.back[d.off+i*d.ld+j] // judge the caller's storage itself
+			}
 			if at := d.m.At(i, j); math.Float64bits(at) != math.Float64bits(got) {
 				return fmt.Sprintf("At(%d,%d)=%v differs from raw data %v", i, j, at, got)
 			}
@@ -146,12 +158,13 @@ func (d *denseRecv) outside() string {
 // ---- VecDense ---------------------------------------------------------------
 
 type vecRecv struct {
-	state string
-	v     *mat.VecDense
-	back  []float64
-	n     int
-	off   int
-	inc   int
+	state    string
+	v        *mat.VecDense
+	back     []float64
+	n        int
+	off      int
+	inc      int
+	detachOK bool // CloneFromVec only
 }
 
 func newVecRecv(state string, n, variant int) *vecRecv {
@@ -189,11 +202,20 @@ func (d *vecRecv) check(want []float64, tol func(i, j int) float64) string {
 		return fmt.Sprintf("result is %d×%d, want %d×1", r, c, d.n)
 	}
 	raw := d.v.RawVector()
-	if raw.Inc != d.inc && (d.state == "view" || d.state == "sized") {
-		return fmt.Sprintf("receiver increment changed from %d to %d", d.inc, raw.Inc)
+	through := (d.state == "view" || d.state == "sized") && !d.detachOK
+	if through {
+		if raw.Inc != d.inc {
+			return fmt.Sprintf("receiver increment changed from %d to %d", d.inc, raw.Inc)
+		}
+		if len(raw.Data) == 0 || &raw.Data[0] != &d.back[d.off] {
+			return "the non-empty receiver was detached from its backing storage: the result is not written through to the caller's array"
+		}
 	}
 	for i := 0; i < d.n; i++ {
 		got := raw.Data[i*raw.Inc]
+		if through {
+			got = d.back[d.off+i*d.inc]
+		}
 		if at := d.v.AtVec(i); math.Float64bits(at) != math.Float64bits(got) {
 			return fmt.Sprintf("AtVec(%d)=%v differs from raw data %v", i, at, got)
 		}
@@ -267,6 +289,11 @@ func (d *symRecv) check(want matrix, tol func(i, j int) float64) string {
 	raw := d.s.RawSymmetric()
 	if raw.Uplo != blas.Upper {
 		return "result is not stored in the upper triangle"
+	}
+	if d.state == "sized" || d.state == "view" {
+		if len(raw.Data) == 0 || &raw.Data[0] != &d.back[d.off] || (raw.Stride != d.ld && d.n > 1) {
+			return "the non-empty receiver was detached from its backing storage: the result is not written through to the caller's array"
+		}
 	}
 	for i := 0; i < d.n; i++ {
 		for j := 0; j < d.n; j++ {
@@ -369,6 +396,11 @@ func (d *triRecv) check(want matrix, tol func(i, j int) float64) string {
 		return fmt.Sprintf("result triangle upper=%v, want upper=%v", bool(kind), d.upper)
 	}
 	raw := d.t.RawTriangular()
+	if d.state == "sized" || d.state == "view" {
+		if len(raw.Data) == 0 || &raw.Data[0] != &d.back[d.off] || (raw.Stride != d.ld && d.n > 1) {
+			return "the non-empty receiver was detached from its backing storage: the result is not written through to the caller's array"
+		}
+	}
 	in := func(i, j int) bool { return (d.upper && j >= i) || (!d.upper && j <= i) }
 	for i := 0; i < d.n; i++ {
 		for j := 0; j < d.n; j++ {
